@@ -93,6 +93,28 @@ pub const CORPUS: &[&str] = &[
     "4k3/8/8/8/5p1p/8/6P1/4K3 w - - 0 1",
     "4k3/1p6/8/P1P5/8/8/8/4K3 b - - 0 1",
     "4k3/6p1/8/5P1P/8/8/8/4K3 b - - 0 1",
+    // maximal move lists: 16 movable men and two en-passant captures (18 entries)
+    "rnbqkbnr/1ppp1ppp/p7/3PpP2/P6P/1P2P3/2P3P1/RNBQKBNR w KQkq e6 0 9",
+    "rnbqkbnr/ppp1pppp/8/2PpP3/P6P/3P4/1P3PP1/RNBQKBNR w KQkq d6 0 8",
+    // en-passant capture by a diagonally pinned pawn along the pin line is the only legal move; en passant that mates
+    "1r4kb/8/8/4Pp2/8/8/7r/K7 w - f6 0 1",
+    "rn6/k7/8/PpP5/8/8/4B1B1/6K1 w - b6 0 1",
+    "6k1/3p4/8/4P3/8/8/8/1B4K1 w - - 0 1",
+    // two capturers, one of them pinned
+    "3r3k/8/8/3PpP2/8/8/8/3K4 w - e6 0 1",
+    "2r4k/3p4/8/2P1P3/8/8/8/2K5 b - - 0 1",
+    "3k4/8/8/8/3p1p2/8/4P3/3R3K w - - 0 1",
+    // a move gives double check while a third slider pins
+    "4k3/3n4/8/8/B3N3/8/8/4R1K1 w - - 0 1",
+    "4k3/5p2/8/7B/4N3/8/8/K3R3 w - - 0 1",
+    "7B/8/5n2/4k3/8/4N3/K7/4R3 w - - 0 1",
+    // own rook behind the two pawns on the capture rank (en passant stays legal)
+    "8/8/8/8/r3p2k/8/3P4/6K1 w - - 0 1",
+    // two pawns that can promote by capturing on the same square
+    "1n2k3/P1P5/8/8/8/8/8/4K3 w - - 0 1",
+    // many pieces of one kind reaching one square
+    "7K/1k6/8/8/Q6Q/8/8/Q2Q2Q1 w - - 0 1",
+    "7k/8/2N1N3/1N3N2/8/1N3N2/2N1N3/K7 w - - 0 1",
     // double pushes that give check, both colours
     "8/8/8/5k2/8/8/4P3/4K3 w - - 0 1",
     "4k3/3p4/8/8/4K3/8/8/8 b - - 0 1",
@@ -242,7 +264,7 @@ fn maybe_flip(p: Pos, rng: &mut Rng) -> Pos {
 /// one move away or already in force.
 pub fn pattern(rng: &mut Rng) -> (Pos, &'static str) {
     for _ in 0..200 {
-        let which = rng.below(13);
+        let which = rng.below(16);
         let mut p = Pos::empty();
         let name: &'static str;
         match which {
@@ -260,7 +282,8 @@ pub fn pattern(rng: &mut Rng) -> (Pos, &'static str) {
                 let rf = rng.range((hi + 1) as u64, 7) as i32;
                 let (kf, rf) = if rng.chance(1, 2) { (kf, rf) } else { (rf, kf) };
                 p.sq[mk(kf, 4).unwrap() as usize] = Some((Kind::K, Col::W));
-                p.sq[mk(rf, 4).unwrap() as usize] = Some((if rng.chance(1, 2) { Kind::R } else { Kind::Q }, Col::B));
+                let slider_col = if rng.chance(1, 4) { Col::W } else { Col::B };
+                p.sq[mk(rf, 4).unwrap() as usize] = Some((if rng.chance(1, 2) { Kind::R } else { Kind::Q }, slider_col));
                 p.sq[mk(wf, 4).unwrap() as usize] = Some((Kind::P, Col::W));
                 p.sq[mk(pf, 6).unwrap() as usize] = Some((Kind::P, Col::B));
                 place_random(&mut p, rng, Kind::K, Col::B);
@@ -486,6 +509,66 @@ pub fn pattern(rng: &mut Rng) -> (Pos, &'static str) {
                     }
                 }
                 return (best.unwrap().1, name);
+            }
+            13 => {
+                // a double push landing between two enemy pawns, one of which may be pinned (file or diagonal)
+                name = "ep_two_capturers";
+                let pf = rng.range(1, 6) as i32;
+                p.sq[mk(pf, 6).unwrap() as usize] = Some((Kind::P, Col::B));
+                p.sq[mk(pf - 1, 4).unwrap() as usize] = Some((Kind::P, Col::W));
+                p.sq[mk(pf + 1, 4).unwrap() as usize] = Some((Kind::P, Col::W));
+                let side = if rng.chance(1, 2) { -1 } else { 1 };
+                let cf = pf + side; // the capturer to be pinned
+                match rng.below(3) {
+                    0 => {
+                        // file pin: king below, rook above
+                        let kr = rng.range(0, 3) as i32;
+                        let rr = rng.range(5, 7) as i32;
+                        p.sq[mk(cf, kr).unwrap() as usize] = Some((Kind::K, Col::W));
+                        if p.sq[mk(cf, rr).unwrap() as usize].is_none() {
+                            p.sq[mk(cf, rr).unwrap() as usize] = Some((*rng.pick(&[Kind::R, Kind::Q]), Col::B));
+                        }
+                    }
+                    1 => {
+                        // diagonal pin
+                        let d = if rng.chance(1, 2) { 1 } else { -1 };
+                        let k = rng.range(1, 3) as i32;
+                        match (mk(cf - d * k, 4 - k), mk(cf + d * 2, 6)) {
+                            (Some(ks), Some(bs)) if p.sq[ks as usize].is_none() && p.sq[bs as usize].is_none() => {
+                                p.sq[ks as usize] = Some((Kind::K, Col::W));
+                                p.sq[bs as usize] = Some((*rng.pick(&[Kind::B, Kind::Q]), Col::B));
+                            }
+                            _ => continue,
+                        }
+                    }
+                    _ => {
+                        place_random(&mut p, rng, Kind::K, Col::W);
+                    }
+                }
+                place_random(&mut p, rng, Kind::K, Col::B);
+                p.stm = Col::B;
+            }
+            14 => {
+                // many men of one kind that can reach the same squares: disambiguation stress
+                name = "many_same_pieces";
+                let k = *rng.pick(&[Kind::N, Kind::Q, Kind::R, Kind::B]);
+                place_random(&mut p, rng, Kind::K, Col::W);
+                place_random(&mut p, rng, Kind::K, Col::B);
+                for _ in 0..rng.range(4, 8) {
+                    place_random(&mut p, rng, k, Col::W);
+                }
+                p.stm = Col::W;
+            }
+            15 => {
+                // two pawns on the seventh, two files apart, an enemy man between them on the last rank
+                name = "shared_promotion_square";
+                let f = rng.range(1, 6) as i32;
+                p.sq[mk(f - 1, 6).unwrap() as usize] = Some((Kind::P, Col::W));
+                p.sq[mk(f + 1, 6).unwrap() as usize] = Some((Kind::P, Col::W));
+                p.sq[mk(f, 7).unwrap() as usize] = Some((*rng.pick(&[Kind::N, Kind::B, Kind::R, Kind::Q]), Col::B));
+                place_random(&mut p, rng, Kind::K, Col::W);
+                place_random(&mut p, rng, Kind::K, Col::B);
+                p.stm = Col::W;
             }
             12 => {
                 // the side to move is in check by a distant slider and has (almost) a single reply of a chosen
